@@ -83,21 +83,34 @@ def cls_direct(s):
     return None
 
 
-def check_property(ctx, s):
+PROP_NAMES = ['summary', 'x-note', 'description', 'color', 'X-ALT-DESC']       # registered and unregistered TEXT names
+PROP_PARAMS = [None, {'LANGUAGE': 'en'}, {'X-OWNER': 'Doe\\, John'}, {'ALTREP': 'file:///c:\\dir\\;x', 'X-Q': 'a\\:b'}]
+
+
+def check_property(ctx, s, name='summary', params=None):
     from icalendar import Event
     e = Event()
-    e.add('summary', s)
+    e.add(name, s, parameters=dict(params) if params else None)
     try:
         b = e.to_ical()
     except (UnicodeEncodeError, AssertionError):
         return
     try:
         e2 = Event.from_ical(b)
-        back = str(e2['SUMMARY']) if 'SUMMARY' in e2 else None
+        back = str(e2[name]) if name in e2 else None
     except ValueError as ex:
         back = f'<ValueError {ex}>'
     if back != norm(s):
-        ctx.violation('property-roundtrip', {'s': s}, f'SUMMARY read back as {back!r}, expected {norm(s)!r}')
+        ctx.violation('property-roundtrip', {'s': s, 'name': name, 'params': params},
+                      f'{name.upper()} (parameters {params}) read back as {back!r}, expected {norm(s)!r}')
+
+
+def check_property_variants(ctx, s):
+    """the same text under registered and unregistered TEXT property names, with and without parameters
+    (parameters whose values hold backslash sequences change where the value starts in the escaped copy)"""
+    for name in PROP_NAMES:
+        for params in PROP_PARAMS:
+            check_property(ctx, s, name, params)
 
 
 def check_cats(ctx, xs):
@@ -128,6 +141,7 @@ def oracle(ctx):
         ctx.evaluated(('c', s))
         check_direct(ctx, s)
         check_property(ctx, s)
+        check_property_variants(ctx, s)
         check_cats(ctx, [s, 'k'])
         check_cats(ctx, ['k', s])
     depth = 4 if (ctx.tier == 'thorough' or ctx.escalate) else 3
@@ -136,6 +150,8 @@ def oracle(ctx):
         check_direct(ctx, s)
         if len(s) <= 3:
             check_property(ctx, s)
+            if len(s) <= 2:
+                check_property_variants(ctx, s)
             if len(s) <= 2:
                 check_cats(ctx, [s, 'k'])
                 check_cats(ctx, [s])
@@ -158,6 +174,7 @@ def oracle(ctx):
         ctx.evaluated(('s', s))
         check_direct(ctx, s)
         check_property(ctx, s)
+        check_property(ctx, s, ctx.rng.choice(PROP_NAMES), ctx.rng.choice(PROP_PARAMS))
         xs = [gen.rand_text(ctx.rng, 10) for _ in range(ctx.rng.randint(1, 4))]
         if not any(has_surrogate(x) for x in xs):
             ctx.evaluated(('l', tuple(xs)))
@@ -168,7 +185,7 @@ def replay(ctx, data):
     inp = data['input']
     if 's' in inp:
         check_direct(ctx, inp['s'])
-        check_property(ctx, inp['s'])
+        check_property(ctx, inp['s'], inp.get('name', 'summary'), inp.get('params'))
     if 'items' in inp:
         check_cats(ctx, inp['items'])
     for v in ctx.violations:
